@@ -11,10 +11,48 @@ FACTORIES = ('deep_round_factory', 'simple_round_factory', 'shallow_round_factor
 STRLIKE = ('str', 'unicode', 'bytes', 'basestring')
 
 
+def mro(module, ci):
+    """the class and its base classes defined in the same module, most derived first"""
+    out, todo = [], [ci]
+    while todo:
+        c = todo.pop(0)
+        if c is None or c in out:
+            continue
+        out.append(c)
+        for b in c.base_names():
+            todo.extend(module.classes_by_name.get(b, []))
+    return out
+
+
+def resolve_method(module, ci, name):
+    for c in mro(module, ci):
+        if name in c.methods:
+            return c.methods[name]
+    return None
+
+
+def class_attr(module, ci, name):
+    for c in mro(module, ci):
+        if name in c.attrs:
+            return c.attrs[name]
+    return None
+
+
 class RModel(PlainModel):
-    def __init__(self, module, fparam=None):
+    def __init__(self, module, fparam=None, cls=None):
         PlainModel.__init__(self, module)
         self.fparam = fparam
+        self.cls = cls
+
+    def attr_load(self, obj, attr, st, node):
+        # a class attribute naming a module function: `_factory = staticmethod(deep_round_factory)` read through self
+        if obj == SELF and self.cls is not None:
+            v = class_attr(self.module, self.cls, attr)
+            if isinstance(v, ast.Call) and isinstance(v.func, ast.Name) and v.func.id in ('staticmethod', 'classmethod') and len(v.args) == 1:
+                v = v.args[0]
+            if isinstance(v, ast.Name) and v.id in self.module.functions:
+                return [R(st, ('lib', '%s.%s' % (self.module.rel, v.id)))]
+        return None
 
     def global_name(self, name, st):
         v = PlainModel.global_name(self, name, st)
@@ -166,11 +204,11 @@ def rule_R_NONE(ctx, repo):
         ci = m.classes.get(cname)
         if ci is None:
             raise AnalysisError('anchor vanished: class %s in klepto/rounding.py' % cname)
-        call = ci.methods.get('__call__')
+        call = resolve_method(m, ci, '__call__')
         if call is None or len(call.node.args.args) != 2:
             raise AnalysisError('anchor vanished: %s.__call__(self, f)' % cname)
         fparam = ('param', call.node.args.args[1].arg)
-        model = RModel(m, fparam)
+        model = RModel(m, fparam, cls=ci)
         eng = Engine(model, unroll=1)
         outs = eng.run_function(call.node, {}, params={call.node.args.args[0].arg: SELF})
         rets = [o for o in outs if o.kind == RETURN]
@@ -208,17 +246,34 @@ def rule_R_NONE(ctx, repo):
             if not ok:
                 ctx.fail('R-NONE', qual, 'tol is None=%s: %s' % (tolnone, why[:50]), why, '%s:%d' % (m.rel, node.lineno), render_path(o))
         # __init__ wires __round__ = <same-named factory>(tol), .tol = tol
-        init = ci.methods.get('__init__')
-        src = unparse(init.node)
+        init = resolve_method(m, ci, '__init__')
         fac = cname + '_factory'
-        ok = ('self.__round__ = %s(tol)' % fac) in src and 'self.__round__.tol = tol' in src
+        ok = False
+        if init is not None and len(init.node.args.args) >= 2:
+            tolp = ('param', init.node.args.args[1].arg)
+            ieng = Engine(RModel(m, cls=ci), unroll=1)
+            iouts = [o for o in ieng.run_function(init.node, {}, params={init.node.args.args[0].arg: SELF}) if o.kind == RETURN]
+            ok = bool(iouts)
+            for o in iouts:
+                sets = [e for e in o.st.events if e.kind == 'SELFSET']
+                rset = [e for e in sets if e.args[0] == SELF and e.args[1] == C('__round__')]
+                tset = [e for e in sets if e.args[0] == ('attr', SELF, '__round__') and e.args[1] == C('tol')]
+                good = (len(rset) == 1 and rset[0].args[2][0] == 'call' and rset[0].args[2][1] == ('lib', '%s.%s' % (m.rel, fac))
+                        and rset[0].args[2][2] == (tolp,) and not rset[0].args[2][3]
+                        and len(tset) == 1 and tset[0].args[2] == tolp)
+                ok = ok and good
         ctx.ob('R-NONE', '%s.__init__' % cname, ok)
         if not ok:
-            ctx.fail('R-NONE', init.qual, 'wiring', '%s.__init__ does not set __round__ = %s(tol) with .tol = tol' % (cname, fac), init.where)
-        red = ci.methods.get('__reduce__')
+            ctx.fail('R-NONE', (init.qual if init is not None else ci.qual), 'wiring', '%s.__init__ does not set __round__ = %s(tol) with .tol = tol' % (cname, fac),
+                     init.where if init is not None else ci.where)
+        red = resolve_method(m, ci, '__reduce__')
         if red is not None:
-            r = [n for n in ast.walk(red.node) if isinstance(n, ast.Return)]
-            ok = len(r) == 1 and ' '.join(unparse(r[0].value).split()) in ('(self.__class__, (self.__round__.tol,))',)
+            from .peval import PEval, Sym, Unknown
+            try:
+                pv = PEval(m).run(red.node)
+            except Unknown as e:
+                raise AnalysisError('%s.__reduce__: unrecognised builder (%s)' % (cname, e))
+            ok = isinstance(pv, tuple) and len(pv) == 2 and pv[0] == Sym('class') and pv[1] == (Sym('attr', '__round__', 'tol'),)
             ctx.ob('R-RED', cname, ok)
             if not ok:
                 ctx.fail('R-RED', red.qual, '__reduce__', '%s.__reduce__ does not rebuild the decorator from its tolerance' % cname, red.where)
